@@ -31,7 +31,8 @@ def prewarm() -> None:
     Particle.from_pdgid(211)
     charge_conjugate_name("K+")
     charge_conjugate_name("K+", pdg_name=True)
-    charge_conjugate_name.cache_clear()
+    if hasattr(charge_conjugate_name, "cache_clear"):
+        charge_conjugate_name.cache_clear()
     try:
         Particle.findall(name="pi+")
     except Exception:
